@@ -43,11 +43,24 @@ def r1(ctx, prog):
 def r2(ctx, prog):
     ctx.rule('C18.R2', 'A4: wake-up is not gated on the resource state: the poster resumes a queued waiter whenever the waiter queue is non-empty', floor=3)
     for cls, blk, post, wq, res in PRIMS:
-        f = prog.fn1(cls + '::' + post)
-        rs = sch_calls(f, 'resume')
-        if not rs:
-            ctx.ob('C18.R2', '%s|wakes' % f.name, False, 'the poster never resumes a waiter', where=f.loc(f.body))
+        f0 = prog.fn1(cls + '::' + post)
+        # the wake-up may sit in a private helper of the same class (e.g. wakeupOne())
+        cands = [f0] + [h for c in f0.calls() for h in prog.by_usr.get(c.get('usr'), ()) if not h.parent_usr and h.name.startswith(cls + '::')]
+        cands = [g for g in cands if sch_calls(g, 'resume')]
+        if not cands:
+            ctx.ob('C18.R2', '%s|wakes' % f0.name, False, 'the poster never resumes a waiter', where=f0.loc(f0.body))
             continue
+        f = cands[0]
+        rs = sch_calls(f, 'resume')
+        if f is not f0:
+            # the helper call itself must not be gated on the resource state in the poster
+            for c in f0.calls():
+                if c.get('usr') == f.usr:
+                    flds0 = set()
+                    for cnd, br in q.lexical_guards(f0, c['i']):
+                        flds0 |= {x.split('::')[-1] for x in q.subtree_fields(f0, cnd)}
+                    ctx.ob('C18.R2', '%s|helper-ungated' % f0.name, not (flds0 & set(res)), 'the wake-up helper %s is called unconditionally w.r.t. the resource' % f.name.split('::')[-1]
+                           if not (flds0 & set(res)) else 'the wake-up helper is only called under a test of the resource state (%s)' % sorted(flds0), where=f0.loc(c['i']))
         for r in rs:
             gs = q.lexical_guards(f, r['i'])
             flds = set()
@@ -101,6 +114,64 @@ def r3(ctx, prog):
         ctx.ob('C18.R3', '%s|returns-when-cancelled' % f.name, ok, 'the context switch is only reached when the routine is not cancelled', where=f.loc(f.body))
 
 
+def r6(ctx, prog):
+    ctx.rule('C18.R6', 'A4: a cancelled waiter leaves nothing behind: on the isCanceled() exit of a blocking call the routine withdraws its own token from the '
+             'waiter queue (else the next post wakes a dead token and the live waiter behind it sleeps on), and if its token was already taken by a post it '
+             'passes that wake-up on to the next waiter', floor=6)
+    for cls, blk, post, wq, res in PRIMS:
+        f = prog.fn1(cls + '::' + blk)
+        cs = sch_calls(f, 'isCanceled')
+        if not cs:
+            raise AnalysisBroken('%s: isCanceled() test missing' % f.name)
+        for c in cs:
+            ifs = [a for a in f.ancestors(c['i']) if f.stmts[a]['k'] == 'IfStmt' and c['i'] in set(f.walk(f.stmts[a]['cond']))]
+            if not ifs:
+                raise AnalysisBroken('%s: isCanceled() is not the condition of an if statement' % f.name)
+            region = set(f.walk(f.stmts[ifs[0]]['then']))
+            calls = [f.stmts[x] for x in region if f.stmts[x] and f.stmts[x]['k'] in q.CALL_KINDS]
+            withdraw = [x for x in calls if x.get('fn') in ('erase', 'remove', 'remove_if') and ((f.field_of(x.get('obj')) or '').endswith('::' + wq) or
+                        any((f.field_of(y.get('obj')) or '').endswith('::' + wq) for a in x.get('args', ()) for y in q.subtree_calls(f, a)))]
+            own = any(y.get('fn') == 'getToken' for x in calls for y in [x] + [z for a in x.get('args', ()) for z in q.subtree_calls(f, a)])
+
+            def wakes(g, depth=0):
+                if sch_calls(g, 'resume'):
+                    return True
+                if depth >= 2:
+                    return False
+                return any(wakes(h, depth + 1) for c2 in g.calls() for h in prog.by_usr.get(c2.get('usr'), ()) if not h.parent_usr and h.name.startswith(cls + '::'))
+            hand = [x for x in calls if (x.get('fn') == 'resume' and x.get('cls') == SCH) or
+                    any(wakes(h) for h in prog.by_usr.get(x.get('usr'), ()) if not h.parent_usr and h.name.startswith(cls + '::'))]
+            ctx.ob('C18.R6', '%s|withdraws' % f.name, bool(withdraw) and own,
+                   'the cancel exit erases the caller\'s own token from %s' % wq if withdraw and own else
+                   'the cancel exit returns with the caller\'s token still queued in %s: the next %s() resumes that dead token and a live waiter behind it is never woken '
+                   'although the resource is available' % (wq, post), where=f.loc(c['i']))
+            ctx.ob('C18.R6', '%s|hands-over' % f.name, bool(hand),
+                   'the cancel exit passes a wake-up that was addressed to it on to the next waiter' if hand else
+                   'a post that already popped this routine\'s token is swallowed by the cancel exit: the next waiter is not resumed although the resource is available',
+                   where=f.loc(c['i']))
+
+
+def r7(ctx, prog):
+    ctx.rule('C18.R7', 'A4: a wake-up is a hint, not a grant: after sch_.wait() returns, a blocking call reaches its success exit only through a re-test of the '
+             'resource (any routine may be resumed by Scheduler::resume(token) from elsewhere)', floor=3)
+    for cls, blk, post, wq, res in PRIMS:
+        f = prog.fn1(cls + '::' + blk)
+        ws = sch_calls(f, 'wait')
+        tests = []
+        for b in f.cfg.blocks.values():
+            if b.cond is not None and any(x.split('::')[-1] in res for x in q.subtree_fields(f, b.cond)):
+                p = f.cfg.point_of(b.cond)
+                if p is not None:
+                    tests.append(p)
+        succ = [r for r in q.returns(f) if q.return_const(f, r) != 0]
+        for w in ws:
+            bad = [r for r in succ if f.cfg.exists_path(q.pt(f, w), q.pt(f, r), avoid=tests)]
+            ctx.ob('C18.R7', '%s|recheck-after-wake' % f.name, bool(tests) and not bad,
+                   'every path from wait() to a success return re-tests %s' % '/'.join(res) if tests and not bad else
+                   'a path from wait() reaches the success return at %s without re-testing %s: a routine resumed by anything but the matching post proceeds as if it '
+                   'owned the resource' % (f.loc(bad[0]['i']) if bad else '?', '/'.join(res)), where=f.loc(w['i']))
+
+
 def r4(ctx, prog):
     ctx.rule('C18.R4', 'A4: Broadcast::post resumes every queued token, then clears; Condition::post resumes the waiter when the all/any condition is met and resets the token', floor=2)
     f = prog.fn1(CO + 'Broadcast::post')
@@ -145,6 +216,22 @@ def r5(ctx, prog):
     ok = len(fr) == 1 and len(de) == 1 and len(rs) == 1 and s.cfg.exists_path(q.pt(s, rs[0]), q.pt(s, de[0])) and not s.cfg.exists_path(q.pt(s, de[0]), q.pt(s, rs[0])) and \
         any(any(x.endswith('Routine::state') for x in q.subtree_fields(s, c)) for c, br in q.lexical_guards(s, de[0]['i']))
     ctx.ob('C18.R5', '%s|dead-freed-once' % s.name, ok, 'under state == kDead: cabinet free, joiner resumed, then delete', where=s.loc(s.body))
+    # sibling agreement: every other place that destroys a routine (outside the cleanup()/destructor teardown, where joiners are cancelled
+    # themselves) resumes the routine's joiner first, as switchToRoutine does
+    for g in prog.funcs.values():
+        if not g.name.startswith(SCH + '::') and not (g.parent_func is not None and prog.outermost(g).name.startswith(SCH + '::')):
+            continue
+        top = prog.outermost(g) if g.parent_usr else g
+        if top.name in (SCH + '::cleanup', SCH + '::~Scheduler') or g is s:
+            continue
+        for d in [st for st in g.stmts if st and st['k'] == 'CXXDeleteExpr' and 'Routine' in (g.s(g.strip_casts(st['ch'][0])).get('t') or '')]:
+            woke = [c for c in g.calls() if c.get('fn') in ('resume', 'makeRoutineReady') and any(x.endswith('join_token') for a in c.get('args', ()) for x in q.subtree_fields(g, a))
+                    and g.cfg.dominates(q.pt(g, c), q.pt(g, d)) or
+                    (c.get('fn') in ('resume', 'makeRoutineReady') and any(x.endswith('join_token') for a in c.get('args', ()) for x in q.subtree_fields(g, a)) and
+                     not g.cfg.exists_path(g.cfg.entry_point(), q.pt(g, d), avoid=[q.pt(g, c)] + [g.cfg.point_of(cnd) for cnd, k, b in g.cfg.controlling_branches(q.pt(g, c))]))]
+            ctx.ob('C18.R5', '%s|joiner-woken-before-delete' % g.name, bool(woke),
+                   'the joiner is resumed before the routine is destroyed' if woke else
+                   'a routine is destroyed here without resuming the routine that join()ed it (switchToRoutine does): the joiner stays suspended for ever', where=g.loc(d['i']))
     sc = prog.fn1(SCH + '::schedule')
     sw = [st for st in sc.calls() if st.get('callee', '').startswith('std::swap') and any('ready_routines' in sc.path(a) for a in st.get('args', []))]
     sws = [st for st in sc.calls() if st.get('fn') == 'switchToRoutine']
@@ -160,4 +247,6 @@ def run(ctx):
     ctx.guard(r3, ctx, prog)
     ctx.guard(r4, ctx, prog)
     ctx.guard(r5, ctx, prog)
+    ctx.guard(r6, ctx, prog)
+    ctx.guard(r7, ctx, prog)
     return prog
